@@ -349,7 +349,10 @@ func TestWorker(t *testing.T) {
 
 func runCase(t *testing.T, job *Job, h *Harness, c *Case, i int, seed uint64, full bool) *Record {
 	rec := &Record{I: i, Seed: seed, Class: c.Class, Strategy: c.Sched.Strategy}
-	fmt.Fprintf(outFile, "{\"start\":%d}\n", i)
+	// the case goes out before it runs: a worker killed by the case (panic in a bare goroutine,
+	// runtime fatal error, race report) can then still be minimised and replayed by the driver
+	sb, _ := json.Marshal(map[string]any{"start": i, "case": c})
+	outFile.Write(append(sb, '\n'))
 	e := &Env{t: t, job: job, rec: rec, full: full, c: c}
 	t0 := time.Now()
 	out := h.Run(c, e)
